@@ -193,7 +193,7 @@ class Interp(object):
                 return ("func", e.id)
             if e.id in ("True", "False", "None"):
                 return {"True": True, "False": False, "None": None}[e.id]
-            if e.id in TYPE_NAMES or e.id in self.builtins or e.id in ("len", "isinstance", "str", "int", "getattr",
+            if e.id in TYPE_NAMES or e.id in self.builtins or e.id in ("len", "isinstance", "str", "int", "getattr", "any", "all",
                                                                        "bool", "list", "tuple", "hasattr"):
                 return ("builtin", e.id)
             raise Undecided("unknown name %s" % e.id)
@@ -373,6 +373,14 @@ class Interp(object):
                 return str(x)
             if name == "bool":
                 return self.truth(args[0])
+            if name in ("any", "all"):
+                (x,) = args
+                if isinstance(x, (list, tuple)) and not isinstance(x, ListOfLen):
+                    vals = [self.truth(v) for v in x]
+                    return any(vals) if name == "any" else all(vals)
+                if isinstance(x, (str, int, float)) or x is None:
+                    raise Raised("TypeError", name)
+                raise Undecided("%s(%r)" % (name, x))
             if name in ("list", "tuple"):
                 (x,) = args
                 if isinstance(x, (list, tuple)) and not isinstance(x, ListOfLen):
